@@ -212,7 +212,7 @@ func runC17() int {
 		schedSwitchBound = 2
 	}
 	shardByBranch = true
-	tot, code := exploreSharded(rep, "C17", scs, pb, 0, 200000, deadlineFor(8*time.Minute, 3*time.Hour), sigOf)
+	tot, code := exploreSharded(rep, "C17", scs, pb, 0, 200000, deadlineFor(8*time.Minute, 100*time.Minute), sigOf)
 	if code != 0 {
 		return code
 	}
